@@ -5,9 +5,10 @@ namespace AIToolbox::MDP {
             S(s), A(a), discount_(d), transitions_(t), rewards_(r), rand_(Seeder::getSeed()) {}
 
     SparseModel::SparseModel(const size_t s, const size_t a, const double discount) :
-            S(s), A(a), discount_(discount), transitions_(A, SparseMatrix2D(S, S)),
+            S(s), A(a), transitions_(A, SparseMatrix2D(S, S)),
             rewards_(S, A), rand_(Seeder::getSeed())
     {
+        setDiscount(discount);
         // Make transition matrix true probability
         for ( size_t a = 0; a < A; ++a )
             transitions_[a].setIdentity();
